@@ -215,6 +215,10 @@ def run(ctx):
                     is_range = values.contains(src, lambda x: isinstance(x, tuple) and x[0] == "agg" and "Range" in str(x[1]))
                     if is_range or (names and names <= set(FINITE_ITER) | {"deref", "as_ref", "as_slice", "sample"}) or (not names and not values.contains(src, lambda x: x and x[0] == "call")):
                         bounded_by_iter = True
+            if not bounded_by_iter and flagged is None:
+                from lib import counted_trips
+                if counted_trips(W, ev, fn, lp) is not None:
+                    bounded_by_iter = True      # `while i < n { ..; i += 1 }`: a counter that moves by one towards a loop-invariant bound on every pass
             if flagged is not None:
                 kind = "flag"
             elif bounded_by_iter:
